@@ -97,12 +97,11 @@ def build(ctx):
     ok = {q.cmp_equiv(masks[0], le) and "le" or (q.cmp_equiv(masks[0], gt) and "gt"), q.cmp_equiv(masks[1], le) and "le" or (q.cmp_equiv(masks[1], gt) and "gt")} == {"le", "gt"}
     ctx.ob("PARTITION", site, "masks are column <= midpoint and column > midpoint", ok, "", rc[0])
     # which side goes where
-    inner = [e for e in leafnew if dict(e.kwargs).get("left") is not None or len(e.args) > 3 and e.args[3] != T.NONE]
+    inner = [e for e in leafnew if q.bind(e).get("left", T.NONE) != T.NONE]
     ctx.anchor(site, "inner node constructed", len(inner) == 1, "")
     if inner:
-        kw = dict(inner[0].kwargs)
-        left = kw.get("left", inner[0].args[3] if len(inner[0].args) > 3 else None)
-        right = kw.get("right", inner[0].args[4] if len(inner[0].args) > 4 else None)
+        kw = q.bind(inner[0])
+        left, right = kw.get("left"), kw.get("right")
         def mask_of(t):
             for x in T.atoms_of(t, "opaque"):
                 if x[1] == "cutret":
@@ -164,7 +163,27 @@ def fill(ctx):
            "found %s (uses the stored axis and midpoint)" % sides)
     # count stores
     key = q.sub(atom(("getattr", node, "num_samples_in_compared_subtrees")), P("tree_id"))
-    muts = [e for e in tr.of("localmut") if e.name == "node" and len(e.stack) == 1]
+    cnt_attr = "num_samples_in_compared_subtrees"
+    def is_count_mut(e):
+        """a store into node.num_samples_in_compared_subtrees[tree_id], directly or through a local alias / a helper"""
+        if e.how != "setitem" or sum(1 for f in e.stack if f.qualname == site) != 1 or not isinstance(e.d.get("old"), T.R):
+            return False
+        old = q.unmut(e.old)
+        if tuple(e.path) == (("attr", cnt_attr), ("item", P("tree_id"))) and old == node:
+            return True
+        return tuple(e.path) == (("item", P("tree_id")),) and old == atom(("getattr", node, cnt_attr))
+    muts0 = [e for e in tr.of("localmut") if is_count_mut(e)]
+    # a count computed into one local for both cases (`points = n if leaf else a + b`) is split into its cases
+    from ..evalr import virtual
+    muts = []
+    for e in muts0:
+        v = e.aug[1] if e.aug is not None and e.aug[0] == "Add" else e.value
+        leaves = list(q.ite_leaves(v))
+        if len(leaves) > 1:
+            for cs_, l in leaves:
+                muts.append(virtual(e, cs_, **({"aug": ("Add", l)} if e.aug is not None else {"value": l})))
+        else:
+            muts.append(e)
     n = q.sub(atom(("getattr", data, "shape")), 0)
     tot = sum((q.sub(atom(("getattr", atom(("sub", data, m_)), "shape")), 0) for m_ in masks), const(0)) if len(masks) == 2 else None
     leafg = T.mk_cmp("==", axis, T.NONE)
